@@ -3100,10 +3100,19 @@ where
                     }
 
                     let (vertex_key, hint) = result;
-                    if let Some(index) = index.as_deref_mut()
-                        && let Some(vertex) = self.tds.get_vertex_by_key(vertex_key)
-                    {
-                        index.insert_vertex(vertex_key, vertex.point().coords());
+                    if let Some(index) = index.as_deref_mut() {
+                        if self.tds.number_of_vertices() == D + 1 && self.tds.number_of_cells() == 1 {
+                            // The initial simplex was just built, which replaces the Tds and gives
+                            // every vertex a fresh key. The keys only coincide with the old ones
+                            // when no slot was vacated during the bootstrap phase, so re-key the
+                            // duplicate-detection grid from the rebuilt structure.
+                            index.clear();
+                            for (key, vertex) in self.tds.vertices() {
+                                index.insert_vertex(key, vertex.point().coords());
+                            }
+                        } else if let Some(vertex) = self.tds.get_vertex_by_key(vertex_key) {
+                            index.insert_vertex(vertex_key, vertex.point().coords());
+                        }
                     }
 
                     return Ok((InsertionOutcome::Inserted { vertex_key, hint }, stats));
